@@ -32,6 +32,7 @@ Explain(q, a, recs) ==
          ELSE IF recs = <<>> THEN Yes(q1) ELSE No(q1)
     [] a.a = "step" ->
          IF q.pc # "gate" THEN (IF recs = <<>> THEN Yes(q) ELSE No(q))
+         ELSE IF recs = <<>> /\ CanSilent(q) THEN Yes(Silent(q))
          ELSE IF Ready(q) = {} THEN (IF recs = <<>> THEN Yes([q EXCEPT !.pc = "sel"]) ELSE No([q EXCEPT !.pc = "sel"]))
          ELSE IF q.stalled THEN LET r == CHOOSE x \in Ready(q) : TRUE IN (IF recs = <<>> THEN Yes(Iter(q, r)) ELSE No(Iter(q, r)))
          ELSE IF Len(recs) = 1 /\ recs[1] \in Ready(q) THEN Yes(Iter(q, recs[1]))
@@ -39,6 +40,7 @@ Explain(q, a, recs) ==
     [] a.a = "expire" ->
          LET q1 == [q EXCEPT !.fired = TRUE, !.closed = TRUE] IN
          IF q.fired \/ q.pc = "none" THEN (IF recs = <<>> THEN Yes(q) ELSE No(q))
+         ELSE IF q.pc = "sel" /\ ~q.stalled /\ recs = <<>> /\ CanSilent(q1) THEN Yes(Silent(q1))
          ELSE IF q.pc = "sel" /\ ~q.stalled
          THEN (IF Len(recs) = 1 /\ recs[1] \in Ready(q1) THEN Yes(Iter(q1, recs[1])) ELSE No(Iter(q1, DoneRec)))
          ELSE IF recs = <<>> THEN Yes(q1) ELSE No(q1)
